@@ -27,7 +27,12 @@ type AcctListener struct {
 // FaultPlan injects one fault into one connection.
 type FaultPlan struct {
 	Op   int    // 1-based index of the I/O operation (Read, Write, Set*Deadline counted together) that fails
-	Kind string // reset | timeout | eof | short-write | deadline-error
+	Kind string // reset | timeout | eof | short-write | deadline-error | stall-write
+	// stall-write: the first Write of at least MinLen bytes blocks for StallMs milliseconds and
+	// then fails with a connection reset, like a peer that stopped reading and then went away;
+	// every later Write fails at once.
+	MinLen  int
+	StallMs int
 	// Delay before every operation (0 = none)
 	Delay time.Duration
 }
@@ -104,7 +109,7 @@ func (c *AcctConn) fault(op string) (error, bool) {
 	if p.Delay > 0 {
 		time.Sleep(p.Delay)
 	}
-	if p.Op == 0 || int(n) != p.Op {
+	if p.Op == 0 || int(n) != p.Op || p.Kind == "stall-write" {
 		return nil, false
 	}
 	atomic.StoreInt32(&c.faulted, 1)
@@ -139,6 +144,20 @@ func (c *AcctConn) Read(b []byte) (int, error) {
 }
 
 func (c *AcctConn) Write(b []byte) (int, error) {
+	if p := c.plan; p != nil && p.Kind == "stall-write" {
+		atomic.AddInt64(&c.ops, 1)
+		if atomic.LoadInt32(&c.faulted) == 1 {
+			return 0, &net.OpError{Op: "write", Net: "tcp", Err: os.NewSyscallError("write", syscall.ECONNRESET)}
+		}
+		if len(b) >= p.MinLen {
+			atomic.StoreInt32(&c.faulted, 1)
+			time.Sleep(time.Duration(p.StallMs) * time.Millisecond)
+			return 0, &net.OpError{Op: "write", Net: "tcp", Err: os.NewSyscallError("write", syscall.ECONNRESET)}
+		}
+		n, err := c.Conn.Write(b)
+		atomic.AddInt64(&c.writes, 1)
+		return n, err
+	}
 	if err, ok := c.fault("write"); ok {
 		if c.plan.Kind == "short-write" && len(b) > 1 {
 			n, _ := c.Conn.Write(b[:len(b)/2])
